@@ -242,10 +242,23 @@ func (r *Runner) expandErr(err error) {
 	r.exit.exiting = true
 }
 
-func (r *Runner) arithm(expr syntax.ArithmExpr) int {
+// arithm evaluates an arithmetic expression.
+// If the evaluation fails, such as a division by zero,
+// the error is reported and ok is false.
+func (r *Runner) arithm(expr syntax.ArithmExpr) (n int, ok bool) {
 	n, err := expand.Arithm(r.ecfg, expr)
-	r.expandErr(err)
-	return n
+	if err != nil {
+		r.expandErr(err)
+		return 0, false
+	}
+	return n, true
+}
+
+// arithmTrue reports whether an arithmetic expression is non-zero;
+// an expression which fails to evaluate is false.
+func (r *Runner) arithmTrue(expr syntax.ArithmExpr) bool {
+	n, _ := r.arithm(expr)
+	return n != 0
 }
 
 func (r *Runner) fields(words ...*syntax.Word) []string {
@@ -682,7 +695,7 @@ func (r *Runner) cmd(ctx context.Context, cm syntax.Command) {
 			if y.Init != nil {
 				r.arithm(y.Init)
 			}
-			for y.Cond == nil || r.arithm(y.Cond) != 0 {
+			for y.Cond == nil || r.arithmTrue(y.Cond) {
 				if !r.exit.ok() || r.loopStmtsBroken(ctx, cm.Do) {
 					break
 				}
@@ -699,11 +712,15 @@ func (r *Runner) cmd(ctx context.Context, cm syntax.Command) {
 		}
 		r.setFunc(cm.Name.Value, cm.Body)
 	case *syntax.ArithmCmd:
-		r.exit.oneIf(r.arithm(cm.X) == 0)
+		r.exit.oneIf(!r.arithmTrue(cm.X))
 	case *syntax.LetClause:
 		var val int
 		for _, expr := range cm.Exprs {
-			val = r.arithm(expr)
+			var ok bool
+			val, ok = r.arithm(expr)
+			if !ok {
+				break // like Bash, stop at the first error with status 1
+			}
 
 			if !tracingEnabled {
 				continue
